@@ -11,6 +11,8 @@ FIELDS = {
                         'default_sample_flags'],
     'TrackFragmentDecodeTimeBox': ['base_media_decode_time'],
     'TrackFragmentRunBox': ['data_offset', 'first_sample_flags'],
+    'BitRateBox': ['bufferSizeDB', 'maxBitrate', 'avgBitrate'],
+    'PixelAspectRatioBox': ['h_spacing', 'v_spacing'],
     'TrackFragmentHeaderBox': ['track_id', 'base_data_offset', 'sample_description_index', 'default_sample_duration',
                                'default_sample_size', 'default_sample_flags'],
 }
@@ -61,6 +63,20 @@ def build(key, variant, i):
                'bdo_none': bool(i['bdo_none']), 'has_bug_saio': bool(i['has_bug_saio']),
                'single': lambda x, v: isinstance(x, list) and len(x) == 1 and x[0] == v, 'is_unset': lambda x: x is None}
         return {'env': env, 'old_env': dict(env), 'call': lambda: mp4.SampleAuxiliaryInformationOffsetsBox.post_encode(me, dest)}
+    if qual.endswith('.encode_fields') and not variant:
+        variant = qual.split('.')[0]
+        cls = getattr(mp4, variant)
+        kw = {f: int(i[f]) for f in FIELDS[variant]}
+        box = cls(atom_type={'BitRateBox': 'btrt', 'PixelAspectRatioBox': 'pasp'}[variant], position=0, size=0, **kw)
+        dest = Stream()
+        env = {'self': box, 'dest': dest, 'consumed': lambda d: d.src.tell() == len(d.getvalue()), 'nbytes': lambda d: len(d.getvalue())}
+        old = {'self': NS(**kw)}
+
+        def call2():
+            box.encode_fields(dest)
+            dest.src = io.BytesIO(dest.getvalue())
+            return cls.parse(dest.src, None, options=mp4.Options(), initial_data={})
+        return {'env': env, 'old_env': old, 'call': call2}
     cls = getattr(mp4, variant)
     kw = {f: int(i[f]) for f in FIELDS[variant] if f in i}
     if variant == 'TrackFragmentRunBox':
